@@ -50,6 +50,7 @@ var reNow = regexp.MustCompile(`\btime\.Now\(\)`)
 var reSince = regexp.MustCompile(`\btime\.Since\(`)
 var reListen = regexp.MustCompile(`\bnet\.Listen\(`)
 var reTimeout = regexp.MustCompile(`\bcontext\.WithTimeout\(`)
+var reTLSListen = regexp.MustCompile(`\btls\.Listen\(`)
 
 // writeOverlay prepares the overlay JSON (harness files + clock-redirected sources).
 func (r *replayer) writeOverlay(dir string) (string, error) {
@@ -75,7 +76,7 @@ func (r *replayer) writeOverlay(dir string) (string, error) {
 		if err != nil {
 			return "", err
 		}
-		if !reNow.Match(b) && !reSince.Match(b) && !reListen.Match(b) && !reTimeout.Match(b) {
+		if !reNow.Match(b) && !reSince.Match(b) && !reListen.Match(b) && !reTimeout.Match(b) && !reTLSListen.Match(b) {
 			continue
 		}
 		nb := reNow.ReplaceAll(b, []byte("vpNow()"))
@@ -85,6 +86,10 @@ func (r *replayer) writeOverlay(dir string) (string, error) {
 		nb = reListen.ReplaceAll(nb, []byte("vpNetListen("))
 		// request contexts go through the harness too (symbolic deadlines, tape-driven natively)
 		nb = reTimeout.ReplaceAll(nb, []byte("vpWithTimeout("))
+		if reTLSListen.Match(nb) {
+			nb = reTLSListen.ReplaceAll(nb, []byte("vpTLSListen("))
+			nb = append(nb, []byte("\nvar _ = tls.VersionTLS12 // keeps the import used after the redirection\n")...)
+		}
 		if reNow.Match(b) || reSince.Match(b) {
 			nb = append(nb, []byte("\nvar _ time.Duration // keeps the import used after the clock redirection\n")...)
 		}
